@@ -5,6 +5,7 @@ package sub
 import (
 	"errors"
 	"fmt"
+	"os"
 	"strings"
 	"testing"
 
@@ -559,11 +560,27 @@ func runHistory(cc *c19Case) (ds []hx.Discrepancy, traits map[string]bool, hist 
 	return
 }
 
+func c19Run(cc *c19Case, ds *[]hx.Discrepancy, traits *map[string]bool, hist *[]string, done chan struct{}) {
+	defer close(done)
+	*ds, *traits, *hist = runHistory(cc)
+}
+
 func TestC19(t *testing.T) {
 	run := hx.NewRun("C19")
 	defer run.Flush()
 	one := func(fatal func(string, ...interface{}), cc *c19Case) {
-		ds, traits, hist := runHistory(cc)
+		// the history runs on a goroutine of its own: a call that parks itself on a lock for good
+		// (a publish that kept the registry's lock, say) is seen from the state of that goroutine
+		var ds []hx.Discrepancy
+		var traits map[string]bool
+		var hist []string
+		done := make(chan struct{})
+		go c19Run(cc, &ds, &traits, &hist, done)
+		if stuck := hx.AwaitOrStuck(done, "sub.c19Run"); stuck != "" {
+			run.Case(hx.Hash(cc), true, "deadlock")
+			fmt.Printf("--- FAIL: REPLAY-FAIL C19 violated: %s\n", run.ReportFailure(cc, []hx.Discrepancy{{Kind: "deadlock", Detail: "a call of the history never returns: " + stuck}}))
+			os.Exit(1)
+		}
 		var cl []string
 		for k := range traits {
 			cl = append(cl, k)
